@@ -108,4 +108,9 @@ func runVerbatim(c Case, src string, res *Result) {
 			res.add(Finding{Kind: "oracle", Where: "verbatim", Case: c, Observed: hx(o1), Detail: "literal text of the verbatim body is missing from the output"})
 		}
 	}
+	if want, has := c["body_end"]; has {
+		if !strings.Contains(o1, unhex(want.(string))) {
+			res.add(Finding{Kind: "oracle", Where: "verbatim", Case: c, Observed: hx(o1), Detail: "the end of the verbatim body is missing from the output"})
+		}
+	}
 }
